@@ -121,7 +121,26 @@ def gen_cases(tier, seed):
             first = ir.rename_term(first, {t0: c0})
             first['objs'].append({'t': 'delta', 'up': [t0, c0]})
         terms = [first]
-        if comp and not unit_diff and r.random() < 0.07:
+        if comp and not unit_diff and r.random() < 0.06:
+            # mixed-space spin blocks (o_a v_b | o_b v_a) of a bra-ket symmetric
+            # tensor: the bra/ket orientation must not depend on the index names
+            nm_ = r.choice(['V', 'w2'])
+            s1_, s2_ = r.choice([('a', 'b'), ('b', 'a')])
+            I, A, J, B = f'i:{s1_}', f'a:{s2_}', f'j:{s2_}', f'b:{s1_}'
+            big = {'t': 'anti', 'name': nm_, 'up': [I, A], 'lo': [J, B], 'bk': 0}
+            first = {'pref': r.choice(['1', '2', '-1/2']),
+                     'objs': [big, {'t': 'non', 'name': 'x', 'up': [I, A]},
+                              {'t': 'non', 'name': 'y', 'up': [J, B]}]}
+            targets = []
+            spin = True
+            g = ExprGen(r, cat, spin=True, deltas=0.0, general=0.0)
+            t2, sign, _ = g.alpha_rename(first, targets)
+            c = r.choice(['1', '-1', '2', '1/3'])
+            t2['pref'] = f"({first['pref']})*({c})*({sign})"
+            terms = [first, t2]
+            assump = {'real': nm_ == 'V', 'sym_tensors': ['w2'] if nm_ == 'w2'
+                      else [], 'antisym_tensors': []}
+        elif comp and not unit_diff and r.random() < 0.07:
             # repeated identical tensors: the partner needs a swap of two indices
             # that carry the same name and the same pattern in both terms
             # V^{ij}_{ab} z_ai z_bj  vs  V^{ij}_{ab} z_bi z_aj  (= -first)
